@@ -122,6 +122,13 @@ RECURSIVE AnySrid(_)
 AnySrid(g) == g.srid # <<>> \/ (g.t \in {"MPT", "MLS", "MPG", "GC"} /\ \E i \in DOMAIN g.body : AnySrid(g.body[i]))
 HasMemberSrid(g) == g.t \in {"MPT", "MLS", "MPG", "GC"} /\ \E i \in DOMAIN g.body : AnySrid(g.body[i])
 StripM(x) == [DropSrid(x) EXCEPT !.srid = x.srid]
+\* the same on ANY tree (a decoded one too), touching nothing but the members' SRIDs: a decoder or part accessor that lets
+\* the members show the SRID of the geometry they belong to, or an encoder that writes no member SRID, keeps what is promised
+RECURSIVE NoSrid(_)
+NoSrid(g) == IF g.t \in {"MPT", "MLS", "MPG", "GC"}
+             THEN [g EXCEPT !.srid = <<>>, !.body = [i \in DOMAIN g.body |-> NoSrid(g.body[i])]]
+             ELSE [g EXCEPT !.srid = <<>>]
+StripMS(x) == [NoSrid(x) EXCEPT !.srid = x.srid]
 
 \* ================================================================ Part 2: reference decoder on bytes
 HUGE == 65536
